@@ -18,7 +18,7 @@ type C12Action struct {
 	Open  bool        `json:"open"` // open subject
 	CT    c2.ClipType `json:"ct"`
 	FR    c2.FillRule `json:"fr"`
-	Sol   string      `json:"sol"` // fresh | junk | previous | spare
+	Sol   string      `json:"sol"` // fresh | junk | previous | spare | inputs
 	Delta float64     `json:"delta"`
 	JT    c2.JoinType `json:"jt"`
 	ET    c2.EndType  `json:"et"`
@@ -69,7 +69,7 @@ func drawC12(t *rapid.T) *C12Case {
 			}
 			a.CT = rapid.SampledFrom(allClipTypes).Draw(t, "ct")
 			a.FR = rapid.SampledFrom(allFillRules).Draw(t, "fr")
-			a.Sol = rapid.SampledFrom([]string{"fresh", "junk", "previous", "spare"}).Draw(t, "sol")
+			a.Sol = rapid.SampledFrom([]string{"fresh", "junk", "previous", "spare", "inputs"}).Draw(t, "sol")
 		}
 		c.Actions = append(c.Actions, a)
 	}
@@ -86,6 +86,11 @@ func drawC12(t *rapid.T) *C12Case {
 type engineUnderTest struct {
 	kind string
 	prec int
+	// the paths handed to the latest AddPaths call: the "inputs" solution argument shares
+	// their point buffers (paths := ...; AddPaths(paths); Execute(..., &paths))
+	lastIn64    Paths
+	lastInD     c2.PathsD
+	lastInDSnap string
 	e64  interface {
 		AddPaths(Paths, c2.PathType, bool)
 		Execute(c2.ClipType, c2.FillRule, *Paths) bool
@@ -126,11 +131,14 @@ func (e *engineUnderTest) div() float64 {
 }
 
 func (e *engineUnderTest) add(a C12Action) {
+	e.lastIn64 = a.Paths
 	switch e.kind {
 	case "64":
 		e.e64.AddPaths(a.Paths, c2.PathType(a.PT), a.Open)
 	case "D":
-		e.eD.AddPaths(pathsToD(a.Paths, e.div()), c2.PathType(a.PT), a.Open)
+		in := pathsToD(a.Paths, e.div())
+		e.lastInD, e.lastInDSnap = in, fmt.Sprint(in)
+		e.eD.AddPaths(in, c2.PathType(a.PT), a.Open)
 	default:
 		e.off.AddPaths(a.Paths, a.JT, a.ET)
 	}
@@ -168,6 +176,10 @@ func (e *engineUnderTest) exec(a C12Action, prev64 *Paths, prevD *c2.PathsD) out
 			s := make(Paths, 2, 64)
 			copy(s, junkPolygons())
 			return s
+		case "inputs": // own header array (the caller's headers may be replaced), shared point buffers
+			s := make(Paths, len(e.lastIn64), len(e.lastIn64)+4)
+			copy(s, e.lastIn64)
+			return s
 		}
 		return Paths{}
 	}
@@ -180,6 +192,10 @@ func (e *engineUnderTest) exec(a C12Action, prev64 *Paths, prevD *c2.PathsD) out
 		case "spare":
 			s := make(c2.PathsD, 2, 64)
 			copy(s, pathsToD(junkPolygons(), div))
+			return s
+		case "inputs":
+			s := make(c2.PathsD, len(e.lastInD), len(e.lastInD)+4)
+			copy(s, e.lastInD)
 			return s
 		}
 		return c2.PathsD{}
@@ -331,6 +347,9 @@ func judgeC12(c *C12Case, cx *Ctx) *Violation {
 			}
 		}
 		firstExecDone = true
+		if live.lastInD != nil && fmt.Sprint(live.lastInD) != live.lastInDSnap {
+			return violf("step %d (%s, solution argument %q) modified the PathsD supplied to AddPaths: before %s, after %v", step, a.Kind, a.Sol, clip400(live.lastInDSnap), live.lastInD)
+		}
 		if diff != "" {
 			return violf("%s: "+"step %d (%s %s/%s, solution argument %q) on a used %s engine returned\n   %s\nbut a fresh engine given the same paths returns\n   %s\nhistory: %s",
 				diff, step, a.Kind, ctName(a.CT), frName(a.FR), a.Sol, c.Engine, clip400(got.String()), clip400(want.String()), describeHistory(c.Actions[:step+1]))
@@ -376,7 +395,7 @@ func describeHistory(as []C12Action) string {
 
 func init() {
 	defProp("C12",
-		"rapid-generated histories of 3-9 steps on one engine object (Clipper64, ClipperD with precision 2/0/1/-1, ClipperOffset): AddPaths (subject / clip / open subject; join and end types for offset groups) and Execute / ExecuteOC / ExecutePolyTree / Execute64 with any clip type, fill rule, delta, and a solution argument that is fresh, pre-filled with junk, the previous solution, or a slice with spare capacity (a junk child in the tree); after every execute the observable result (bool, closed paths, open paths, tree shape and polygons, scale) must be deeply equal to that of a fresh engine given exactly the same AddPaths calls; caller-owned path slices are compared with deep copies afterwards; plus single API calls of the C03 grammar whose inputs must stay unmodified; non-trivial = >= 2 executes with different parameters or a dirty solution argument",
+		"rapid-generated histories of 3-9 steps on one engine object (Clipper64, ClipperD with precision 2/0/1/-1, ClipperOffset): AddPaths (subject / clip / open subject; join and end types for offset groups) and Execute / ExecuteOC / ExecutePolyTree / Execute64 with any clip type, fill rule, delta, and a solution argument that is fresh, pre-filled with junk, the previous solution, a slice with spare capacity, or a slice sharing the point buffers of the paths just added (a junk child in the tree); after every execute the observable result (bool, closed paths, open paths, tree shape and polygons, scale) must be deeply equal to that of a fresh engine given exactly the same AddPaths calls; caller-owned path slices are compared with deep copies afterwards; plus single API calls of the C03 grammar whose inputs must stay unmodified; non-trivial = >= 2 executes with different parameters or a dirty solution argument",
 		[]string{"'another order' of AddPaths is covered at region level by C17 (path permutation); here the fresh engine replays the same AddPaths calls so that deep equality is the right oracle"},
 		drawC12, judgeC12)
 }
